@@ -32,6 +32,10 @@ func flowBoundaries(c *Ctx) []*ssa.Function {
 		if strings.HasPrefix(file, "hclsyntax/parser") || strings.HasPrefix(file, "hclsyntax/scan") || strings.HasPrefix(file, "json/parser") || strings.HasPrefix(file, "json/scanner") {
 			continue
 		}
+		// the static variable walkers (Variables / WalkVariables) handle traversals, never values
+		if strings.HasPrefix(file, "ext/dynblock/variables") || strings.HasPrefix(file, "hcldec/variables") || strings.HasPrefix(file, "hclsyntax/variables") {
+			continue
+		}
 		out = append(out, fn)
 	}
 	return out
